@@ -31,7 +31,7 @@ type Profile struct {
 	MountCreated   bool `json:"mountCreated,omitempty"`   // cross-repo mount answers 201 when possible
 	PageCap        int  `json:"pageCap,omitempty"`        // server-imposed page size (0 = none)
 	StrictBlobs    bool `json:"strictBlobs,omitempty"`    // manifest PUT refused when a non-foreign child is missing
-	LinkStyle      int  `json:"linkStyle,omitempty"`      // 0 absolute URL, 1 absolute path, 2 relative reference, 3 query only, 4 path + extra params + rel
+	LinkStyle      int  `json:"linkStyle,omitempty"`      // 0 absolute URL, 1 absolute path, 2 relative reference, 3 query only, 4 path + extra params + rel, 5 opaque marker instead of last
 	FilterMode     int  `json:"filterMode,omitempty"`     // referrers artifactType filter: 0 ignored, 1 applied + header, 2 applied + legacy annotation
 	LocationQuery  bool `json:"locationQuery,omitempty"`  // upload Location carries a query of its own
 	LocationAbs    bool `json:"locationAbs,omitempty"`    // upload Location is an absolute URL
@@ -620,6 +620,13 @@ func (r *Registry) pad(b []byte) []byte {
 func (r *Registry) page(req *http.Request, items []string, nParam string) (out []string, next string, more bool) {
 	q := req.URL.Query()
 	last := q.Get("last")
+	if m := q.Get("marker"); m != "" && last == "" {
+		// opaque continuation token of LinkStyle 5 (an explicit last wins, as it
+		// does for a first request)
+		if b, err := hex.DecodeString(m); err == nil {
+			last = string(b)
+		}
+	}
 	start := 0
 	if last != "" {
 		start = sort.SearchStrings(items, last)
@@ -669,6 +676,11 @@ func (r *Registry) link(req *http.Request, last string) string {
 		return "<" + seg + "?" + q.Encode() + `>; rel="next"`
 	case 3:
 		return "<?" + q.Encode() + `>; rel="next"`
+	case 5:
+		// the continuation is an opaque token, not a last parameter
+		q.Del("last")
+		q.Set("marker", hex.EncodeToString([]byte(last)))
+		return "<" + path + "?" + q.Encode() + `>; rel="next"`
 	default:
 		q.Set("extra", "1")
 		return "<" + path + "?" + q.Encode() + `>;   rel="next"; title="more"`
@@ -680,7 +692,7 @@ func (r *Registry) tags(req *http.Request, rec *ReqRecord, name string) *http.Re
 		r.violation("%s %s: method not allowed", req.Method, req.URL.Path)
 		return Response(req, 405, jsonHdr(), errBody("UNSUPPORTED", "method"), false, rec.BodyRead)
 	}
-	r.allowQuery(req, "n", "last", "extra")
+	r.allowQuery(req, "n", "last", "extra", "marker")
 	rp := r.Repos[name]
 	if rp == nil {
 		return Response(req, 404, jsonHdr(), errBody("NAME_UNKNOWN", name), false, rec.BodyRead)
@@ -707,7 +719,7 @@ func (r *Registry) tags(req *http.Request, rec *ReqRecord, name string) *http.Re
 }
 
 func (r *Registry) catalog(req *http.Request, rec *ReqRecord) *http.Response {
-	r.allowQuery(req, "n", "last", "extra")
+	r.allowQuery(req, "n", "last", "extra", "marker")
 	var all []string
 	for n := range r.Repos {
 		all = append(all, n)
@@ -757,7 +769,7 @@ func (r *Registry) referrers(req *http.Request, rec *ReqRecord, name, dg string)
 	if req.Method != http.MethodGet {
 		r.violation("%s %s: method not allowed", req.Method, req.URL.Path)
 	}
-	r.allowQuery(req, "artifactType", "n", "last", "extra")
+	r.allowQuery(req, "artifactType", "n", "last", "extra", "marker")
 	if !r.P.ReferrersAPI {
 		return Response(req, 404, http.Header{"Content-Type": []string{"text/plain"}}, []byte("404 page not found\n"), false, rec.BodyRead)
 	}
